@@ -129,6 +129,12 @@ func (db *DB) Merge() error {
 			return err
 		}
 	}
+	// 重写过程中产生的旧数据文件同样需要关闭, mmap 实现依赖关闭时恢复文件真实大小
+	for _, file := range mergeDB.olderFiles {
+		if err := file.Close(); err != nil {
+			return err
+		}
+	}
 
 	// 在 merge 临时目录创建并打开 merge 完成标识文件
 	mergeFinishedFile, err := datafile.OpenFile(mergePath, 0,
